@@ -152,6 +152,12 @@ mod misc {
                 ));
             };
 
+            if num_elements <= 0 {
+                return Err(StoryError::InvalidStoryState(
+                    "Expected a positive number of elements for shuffle index".to_owned(),
+                ));
+            }
+
             let loop_index = seq_count / num_elements;
             let iteration_index = seq_count % num_elements;
 
